@@ -52,6 +52,19 @@ class PieceTransport(httpx.AsyncBaseTransport):
     async def handle_async_request(self, request):
         plan = self.svc.plan
         cut = plan.body_pieces if (plan.kind in ('status', 'connect') and plan.left > 0 and plan.match(request) and plan.seen >= plan.skip) else None
+        dead = getattr(self.svc, 'dead_pod', None)
+        if dead is not None and dead(str(request.url)):
+            # an upload pod that stopped answering: the connection breaks after `dead_after` pieces of the body, every time
+            body, n = b'', 0
+            async for piece in request.stream:
+                if n >= self.svc.dead_after:
+                    break
+                n += 1
+            self.svc.requests.append((request.method, str(request.url)))
+            self.svc.dead_hits += 1
+            if len(self.svc.requests) > self.svc.max_requests:
+                raise RequestStorm()
+            raise httpx.ConnectError('injected: upload pod unreachable')
         body, n = b'', 0
         async for piece in request.stream:
             if cut is not None and n >= cut:
@@ -166,6 +179,10 @@ class FakeB2:
         self.ids = {}                # name -> fileId of the newest version
         self.older = {}              # name -> [(fileId, bytes, was_hidden)] older versions, oldest first (every upload adds a version)
         self._fid = 0
+        self.pods_issued = 0
+        self.dead_pod = None         # predicate on the URL: requests to a dead upload pod fail after `dead_after` body pieces
+        self.dead_after = 0
+        self.dead_hits = 0
         self.uploaded = []
         self.requests = []
         self.max_requests = 120
@@ -250,7 +267,9 @@ class FakeB2:
             except ValueError:
                 return self._json(400, {'code': 'bad_json', 'status': 400})
         if url.endswith('/b2_get_upload_url'):
-            return self._json(200, {'uploadUrl': self.UP, 'authorizationToken': 'uptok'})
+            # every call names a (possibly different) storage pod
+            self.pods_issued += 1
+            return self._json(200, {'uploadUrl': f'{self.UP}/pod{self.pods_issued}', 'authorizationToken': 'uptok'})
         if url.startswith(self.UP):
             if request.headers.get('authorization') != 'uptok':
                 return self._json(401, {'code': 'bad_auth_token'})
